@@ -237,6 +237,7 @@ func c13HelperList(hc *ssa.Call, um *ssa.Function) bool {
 // stack calls Config.GetCertificate only when len(Config.Certificates) == 0 or the hello names a server, so the digest
 // is taken for every hello only while the service leaves Certificates empty; GetConfigForClient runs unconditionally.
 func c13HelloCallbackAlwaysRuns(c *Ctx) {
+	c.Explanation += " The digest-taking callback is installed where the vendored stack calls it for every hello (GetCertificate with Certificates left empty), and the https handlers send on the channel field the effective SetChannel sets."
 	p := c.P
 	h := p.Method("services", "httpsService", "Handle")
 	if h == nil {
